@@ -1036,6 +1036,25 @@ pub struct ServerPool {'''),
                 }""", new="""                if let Ok(rewritten) = Parse::get_name(data).map(|_| data.len()) {
                     self.prepared_statements.retain(|_, (cached, _)| cached.name.len() != rewritten);
                 }"""),
+    dict(id="c05-parse-arm-ignores-earlier-bind", prop="C05", file="src/client.rs", expect="C05-R8",
+         what="the Parse arm's batch test counts earlier Parse messages only (D53 again)",
+         old="""                                            matches!(
+                                                data,
+                                                ExtendedProtocolData::Parse { .. }
+                                                    | ExtendedProtocolData::Bind { .. }
+                                            )
+                                        });
+                                    let _ = query_router
+                                        .infer_for_batch(&ast, earlier_statement_in_batch);
+                                }
+                            }
+                            Err(error) => {""", new="""                                            matches!(data, ExtendedProtocolData::Parse { .. })
+                                        });
+                                    let _ = query_router
+                                        .infer_for_batch(&ast, earlier_statement_in_batch);
+                                }
+                            }
+                            Err(error) => {"""),
     # ------------------------------------------------------------------ C17
     dict(id="c17-shutdown-checked-in-transaction", prop="C17", file="src/client.rs", expect="C17-R1",
          what="the transaction loop also reacts to the shutdown broadcast",
